@@ -166,6 +166,17 @@ def oracle_inverse(case, ctx):
                 if isinstance(a3, Raised) or list(a3.index) != list(b.index) or not close(a3, b, 1e-12):
                     discs.append(D("fit_transform_differs:%s" % desc, "on an object fitted before on another series: fit_transform %s vs fit().transform %s"
                                    % (a3 if isinstance(a3, Raised) else np.asarray(a3)[:4], np.asarray(b)[:4])))
+    # another transformer of the same configuration is fitted on an unrelated series in the
+    # meantime (two series handled side by side): objects do not share fitted state
+    sib = build(spec)
+    unrelated = gen.build_series([400.0 - 7.5 * j + 3.0 * ((j * 5) % 7) for j in range(len(z) + 2)], int(z.index[0]) + 1, case["index_kind"])
+    t_before = sut(t.transform, z.copy())
+    sut(lambda: sib.fit(unrelated, fh=[1]) if spec["kind"] == "pipeline_as_transformer" else sib.fit(unrelated))
+    t_after = sut(t.transform, z.copy())
+    if isinstance(t_before, pd.Series) and not (isinstance(t_after, pd.Series) and list(t_after.index) == list(t_before.index) and close(t_after, t_before, 1e-12)):
+        discs.append(D("transform_changed_by_fitting_another_object:%s" % desc, "before %s after %s" % (
+            np.asarray(t_before)[:4], t_after if isinstance(t_after, Raised) else np.asarray(t_after)[:4])))
+        return discs
     frozen = case.get("update_params") is False and bool(case["updates"]) and hasattr(t, "update") and spec["kind"] != "pipeline_as_transformer"
     before = sut(t.transform, z.copy()) if frozen else None
     u = do_updates(t, z, case, spec)
